@@ -132,11 +132,21 @@ def epoch(ctx, ws):
         cap = None
         if len(rets) == 1:
             e = unwrap(g, g.children(rets[0])[0])
-            if e is not None and e["k"] == "BinaryOperator" and e["op"] == "!=":
+            if e is not None and e["k"] == "BinaryOperator" and e["op"] in ("!=", "<", ">"):
                 l, r = [path(g, x) for x in g.children(e)]
                 if "this.generation_" in (l, r):
                     cap = r if l == "this.generation_" else l
                     ok = cap is not None and (cap.startswith("l:") or cap.startswith("p:"))
+                    if ok and e["op"] != "!=":
+                        # an ordering comparison ("my epoch is older") is as good as != for a counter that cannot wrap
+                        # within a program's lifetime; on a narrow counter it fails at the wrap-around, != does not
+                        right_way = (e["op"] == "<" and r == "this.generation_") or (e["op"] == ">" and l == "this.generation_")
+                        wide = False
+                        for r_ in fb.records(tmpl=CLS):
+                            fl = r_.field("generation_")
+                            wide = fl is not None and fl["type"] in ("unsigned long", "unsigned long long", "std::size_t", "size_t",
+                                                                     "std::uint64_t", "uint64_t")
+                        ok = right_way and wide
         ctx.ob(rid, ok, f.loc(st), "predicate is (captured value != generation_)",
                "" if ok else "the predicate is not an epoch comparison: it can be made false again by threads that lap the waiter",
                fn=top.label, inst=f.qname)
